@@ -343,7 +343,15 @@ TOL = 1e-6
 
 # sub-check keys under which every kind of failure (exception of any type, NaN, wrong value) has ONE known root cause, the
 # matrix logarithm the twist classes are built on (base.trlog / trlog2, property C03): there the outcome is not part of the key
-LOG_HAZARD = ()      # empty since /repo 84bd1d7 (trlog) and c4462a7 (closed-form trlog2): no cell is exempt from the outcome-specific keys
+# /repo 84bd1d7 (trlog) and c4462a7 (closed-form trlog2) repaired the eight former cells.  ONE residue of 84bd1d7 is left: a rotation
+# block that differs from I only by a SYMMETRIC rounding residue just above iseye's 10 eps (e.g. the float product X * inv(X)) reaches
+# trlog's general branch with vex(R - R') == 0 exactly and divides 0/0.  Only that cell keeps an outcome-independent key.
+LOG_HAZARD = ('conv:SE3->Twist3->SE3:rounding-identity', 'tree:Twist3:rounding-identity')
+# the float product trexp(S) @ trexp(-S) for the half turn S found by the multi-valued oracle (VERIF_SEED=1): not iseye, exactly symmetric
+ROUNDING_IDENTITY = ['0x1.ffffffffffff3p-1', '-0x1.3e9cd73ddeee8p-53', '0x1.d36031c8fef82p-52', '0x1.3700000000000p-52',
+                     '-0x1.3e9cd73ddeee8p-53', '0x1.ffffffffffff2p-1', '-0x1.9db59251a80fep-52', '-0x1.8000000000000p-53',
+                     '0x1.d36031c8fef82p-52', '-0x1.9db59251a80fep-52', '0x1.fffffffffffffp-1', '-0x1.4000000000000p-53',
+                     '0x0.0p+0', '0x0.0p+0', '0x0.0p+0', '0x1.0000000000000p+0']
 
 
 class Oracle:
@@ -466,9 +474,13 @@ def rot_angle(T):
 
 
 def log_hazard(tree, Ts):
-    """formerly classified the cells where trlog / trlog2 were known to break (near the identity, near a half turn, large
-    translations); repaired in /repo 84bd1d7 and c4462a7, so every tree is now held to the same tolerance under the same key"""
-    return ''
+    """the one cell where the matrix logarithm under Twist3 is still known to break (see LOG_HAZARD): an intermediate result that is
+    the identity up to rounding (reference rotation angle < 1e-12, e.g. X * inv(X)).  Decided from the NumPy reference values only."""
+    if Ts[0].shape[0] != 4:
+        return ''
+    acc = []
+    ref_nodes(tree, Ts, acc)
+    return ':rounding-identity' if any(rot_angle(T) < 1e-12 for T in acc) else ''
 
 
 def tree_leaves(t):
@@ -533,6 +545,11 @@ def rot_kind(rng):
 
 def oracle_trees3(o, rng, ntrees, depth):
     ctx = o.ctx
+    # directed: the recorded rounding residue of the identity (deterministic reproduction of the residual trlog cell)
+    M = np.array([float.fromhex(h) for h in ROUNDING_IDENTITY]).reshape(4, 4)
+    Y = o.guard('conv:SE3->Twist3->SE3:rounding-identity', lambda: SE3(M, check=False).Twist3().SE3().A, M)
+    if Y is not None:
+        o.cmp('conv:SE3->Twist3->SE3:rounding-identity', Y, M, M)
     for it in range(ntrees):
         nleaf = int(rng.integers(1, 4))
         kinds, Rs, ts = [], [], []
@@ -684,8 +701,14 @@ def oracle_double_cover(o, rng, n):
         q = rand_unit(rng, 4)
         if rng.random() < 0.3:
             R, _, _ = rot_kind(rng)
-            q = np.asarray(UnitQuaternion(R).vec, float)
-        a, b = UnitQuaternion(q), UnitQuaternion(-q)
+            q0 = o.guard('cover:UQ(R)', lambda: np.asarray(UnitQuaternion(R).vec, float), R)
+            if q0 is None:
+                continue
+            q = q0
+        ab = o.guard('cover:UQ(q)', lambda: (UnitQuaternion(q), UnitQuaternion(-q)), q)
+        if ab is None:
+            continue
+        a, b = ab
         o.cmp('cover:R(q)=R(-q)', b.R, a.R, q)
         o.cmp('cover:R(q)', a.R, _q2r(q / np.linalg.norm(q)), q)
         ctx.case(('cover:eq', tuple(q)))
@@ -830,20 +853,24 @@ def oracle_constructors(o, rng, n):
 # ---- structure: the constructors that are a composition through r2q really are that composition --------------------
 def oracle_structure(o, rng, n):
     """ties the theorems C04_RPY_Eul_agree / C04_UDQ_roundtrip (stated on model r2q o traced rpy2r) to the class methods"""
-    def same_q(key, q, R, inputs):
-        ref = base.r2q(R)
-        got = np.asarray(q, float)
-        o.cmp('struct:' + key, got, ref / np.linalg.norm(ref), inputs, tol=1e-12)
+    def same_q(key, mk, inputs):
+        r = o.guard('struct:' + key, mk, inputs)
+        if r is None:
+            return
+        q, R = r
+        ref = o.guard('struct:' + key, lambda: base.r2q(np.asarray(R, float)), inputs)
+        if ref is not None:
+            o.cmp('struct:' + key, np.asarray(q, float), ref / np.linalg.norm(ref), inputs, tol=1e-12)
     for _ in range(n):
         a = rng.uniform(-math.pi, math.pi, size=3)
         for order in ('zyx', 'xyz', 'yxz'):
-            same_q(f'UQ.RPY:{order}=r2q(rpy2r)', UnitQuaternion.RPY(a, order=order).vec, SO3.RPY(a, order=order).A, a)
-        same_q('UQ.Eul=r2q(eul2r)', UnitQuaternion.Eul(a).vec, SO3.Eul(a).A, a)
+            same_q(f'UQ.RPY:{order}=r2q(rpy2r)', (lambda order: lambda: (UnitQuaternion.RPY(a, order=order).vec, SO3.RPY(a, order=order).A))(order), a)
+        same_q('UQ.Eul=r2q(eul2r)', lambda: (UnitQuaternion.Eul(a).vec, SO3.Eul(a).A), a)
         ov, av = rng.normal(size=3), rng.normal(size=3)
-        same_q('UQ.OA=r2q(oa2r)', UnitQuaternion.OA(ov, av).vec, SO3.OA(ov, av).A, np.r_[ov, av])
+        same_q('UQ.OA=r2q(oa2r)', lambda: (UnitQuaternion.OA(ov, av).vec, SO3.OA(ov, av).A), np.r_[ov, av])
         R, _, _ = rot_kind(rng)
-        same_q('UQ(SO3)=r2q', UnitQuaternion(SO3(R, check=False)).vec, R, R)
-        same_q('UQ(matrix)=r2q', UnitQuaternion(R).vec, R, R)
+        same_q('UQ(SO3)=r2q', lambda: (UnitQuaternion(SO3(R, check=False)).vec, R), R)
+        same_q('UQ(matrix)=r2q', lambda: (UnitQuaternion(R).vec, R), R)
 
 
 def oracle_multi(o, rng, n):
@@ -893,7 +920,7 @@ def oracle_multi(o, rng, n):
             if tw is not None:
                 o.elems('multi:Twist3.SE3', lambda: tw.SE3(), T3s, lambda x: x.A, inp3, 10.0)
                 o.elems('multi:Twist3.exp', lambda: tw.exp(), T3s, lambda x: x.A, inp3, 10.0)
-                o.elems('multi:Twist3*Twist3', lambda: tw * tw.inv() * tw, T3s, lambda x: x.SE3().A, inp3, 10.0)
+                o.elems('multi:Twist3*Twist3', lambda: tw * tw, [T @ T for T in T3s], lambda x: x.SE3().A, inp3, 100.0)
 
 
 def oracle(ctx):
